@@ -1014,7 +1014,9 @@ def work(item, res):
         handler_work(item, res)
 
 
-ALL_PAIRS_MAX_LEN = 140       # thorough: 2-byte substitutions over ALL offset pairs for datagrams this short
+# thorough: 2-byte substitutions over ALL offset pairs for one short datagram of each kind (request from a
+# routing-table contact, response to an in-flight request, unsolicited error)
+ALL_PAIRS_FOR = ('ping/contact', 'pong', 'error/unsolicited')
 
 
 def plan(tier):
@@ -1026,7 +1028,7 @@ def plan(tier):
     head3 = 12 if quick else HEAD
     all_pairs = []
     for bi, (name, sender, msg, enc) in enumerate(bs):
-        if not quick and len(enc) <= ALL_PAIRS_MAX_LEN:
+        if not quick and name in ALL_PAIRS_FOR:
             all_pairs.append(name)
             for o1 in range(len(enc) - 1):
                 items.append(('sub2', bi, o1, 0, len(enc)))
@@ -1104,7 +1106,7 @@ def run(ctx):
               'valid datagrams (7 requests, 3 responses and 2 errors, from a stranger, a routing-table contact and '
               'the addressee of 4 in-flight requests): every truncation, every 1-byte substitution over the 9-symbol '
               'alphabet at every offset, every 2-byte substitution on the first H2 offsets (thorough: also inside the last '
-              '16 offsets, and over ALL offset pairs of the five datagrams <= 140 bytes), every 3-byte substitution '
+              '16 offsets, and over ALL offset pairs of one request, one response and one error datagram), every 3-byte substitution '
               'over {d,e,i,l} on the first H3 offsets (bounds: sub2_first_offsets / sub3_first_offsets), every '
               'replacement/deletion of every field by 17 values of all four bencode types; all byte strings of length <= 3 over the alphabet, 64 KiB of each symbol, nesting '
               'bombs, huge/negative lengths, integer syntax, oversize fields (hand-made list), each from a stranger '
